@@ -1,5 +1,6 @@
 import PallasVerif.Proofs.NetMsg
 import PallasVerif.Proofs.NetFuel
+import PallasVerif.Proofs.NetProgress
 import PallasVerif.Gen.PanicSitesC09
 /-!
 # C09 — Ledger and network decoders never panic on untrusted bytes  (level: `other`)
@@ -100,6 +101,25 @@ theorem vec_anycbor_never_out_of_fuel (f1 f2 : Nat) (bs : Bytes) (h1 : bs.length
 theorem vec_u64_never_out_of_fuel (f1 f2 : Nat) (bs : Bytes) (h1 : bs.length < f1) (h2 : bs.length < f2) :
     decBreak u64 f1 bs = decBreak u64 f2 bs :=
   decBreak_fuel_irrelevant u64 progress_u64 bs.length f1 f2 bs rfl h1 h2
+
+/-- every decoder that sits under an indefinite array or map in the message codecs (tx ids, tx
+    bodies, peer addresses, DMQ messages, points, bitmap entries) consumes input when it succeeds,
+    so the element loop never exhausts its fuel, whatever the bytes -/
+theorem message_element_loops_never_out_of_fuel (f1 f2 : Nat) (bs : Bytes) (h1 : bs.length < f1) (h2 : bs.length < f2) (portMax : Nat) :
+    decBreak TxIdAndSize.dec f1 bs = decBreak TxIdAndSize.dec f2 bs ∧
+    decBreak EraTxId.dec f1 bs = decBreak EraTxId.dec f2 bs ∧
+    decBreak EraTx.dec f1 bs = decBreak EraTx.dec f2 bs ∧
+    decBreak (PeerAddress.dec portMax) f1 bs = decBreak (PeerAddress.dec portMax) f2 bs ∧
+    decBreak DmqMsg.dec f1 bs = decBreak DmqMsg.dec f2 bs ∧
+    decBreak Point.dec f1 bs = decBreak Point.dec f2 bs ∧
+    decBreak (pair u16 u64) f1 bs = decBreak (pair u16 u64) f2 bs :=
+  ⟨decBreak_fuel_irrelevant _ progress_txIdAndSize _ f1 f2 bs rfl h1 h2,
+   decBreak_fuel_irrelevant _ progress_eraTxId _ f1 f2 bs rfl h1 h2,
+   decBreak_fuel_irrelevant _ progress_eraTx _ f1 f2 bs rfl h1 h2,
+   decBreak_fuel_irrelevant _ (progress_peerAddress portMax) _ f1 f2 bs rfl h1 h2,
+   decBreak_fuel_irrelevant _ progress_dmqMsg _ f1 f2 bs rfl h1 h2,
+   decBreak_fuel_irrelevant _ progress_point _ f1 f2 bs rfl h1 h2,
+   decBreak_fuel_irrelevant _ (progress_pair (progress_uMax _) progress_u64.noGrow) _ f1 f2 bs rfl h1 h2⟩
 
 /-! ## non-vacuity -/
 
